@@ -8,7 +8,9 @@
 import NutsModel.C07.Net
 import NutsModel.Facts.C07
 import NutsProofs.Lemmas.C07
-open Nuts.Proto Nuts Nuts.Proto.L
+import NutsProofs.Lemmas.C07LiveN
+import NutsProofs.Lemmas.C07Example
+open Nuts.Proto Nuts Nuts.Proto.L Nuts.Proto.Live Nuts.C07.Ex
 
 namespace Nuts.C07.Props
 
@@ -120,5 +122,110 @@ theorem stable_when_equal (cfg : Cfg) (env : Env) (n : Node) (peer : Peer) (lc :
     (handle cfg env n peer (.state cid (xorOf n.dag) lc)).node = n ∧
     (handle cfg env n peer (.state cid (xorOf n.dag) lc)).out = [] := by
   simp [handle, handleGossip, handleState]
+
+
+/-! ### Liveness, relative to the decode contract `DC`, the sort contract, XOR faithfulness and fairness
+
+  A *pull round* `pullRound` is: the gossip tick of `b`, then every reconciliation message of the resulting exchange
+  delivered, batch by batch in the order sent (Round.lean). A *fair round pair* `roundPair` is: conversations that
+  lost a message expire, `a` pulls from `b`, `b` pulls from `a`. These are compositions of the handlers of the model —
+  particular schedules of the adversarial network — and the hypotheses below are explicit, never axioms. -/
+
+/-- the constants of the source meet what the liveness argument needs (pages non-empty, `State` requests never
+    blocked, a range reply covers the page asked for, next-page offsets 1..2 / 1..3) for any oracles meeting their
+    contracts -/
+theorem fact_liveness_constants (maxMsg validity : Nat) (env : Env) (hdc : DC env) (hord : OrderOK env) :
+    Hyp (factCfg maxMsg validity) env := fact_hyp maxMsg validity env hdc hord
+
+/-- **One pull round.** From a state where the puller `a` has no open conversation, a loss-free round started by
+    `b`'s gossip tick terminates (fuel: pages of `b` + 3 exchanges), leaves `b`'s DAG untouched and `a` with a valid
+    DAG between its own and the union, and EITHER `a` gained a transaction OR `a` learned `StuckAt`: for some page
+    `k`, everything `b` has up to page `k` is already in `a`, and on every page from `k` up to the page of the smaller
+    clock the decode failed (so the two differ there). Proof: cases on the handler branches, with the page pointer of
+    the State/TransactionSet fallback chain as inner measure (`chain`). -/
+theorem pull_round_result {cfg : Cfg} {env : Env} (H : Hyp cfg env) (a b : Node) (pA pB : Peer)
+    (ha : DagOK a.dag) (hB : DagOK b.dag) (hf : RefFun a.dag b.dag) (hroot : RootIn a.dag b.dag) (hpb : PayloadsOK b)
+    (hq : QueueOK b pA.key) (hc : a.convs = [])
+    (hxf : ∀ d : List Tx, DagOK d → (∀ t ∈ a.dag, t ∈ d) → (∀ t ∈ d, t ∈ a.dag ∨ t ∈ b.dag) → xorOf b.dag = xorOf d → ∀ t ∈ b.dag, t ∈ d)
+    (fuel : Nat) (hfuel : pageOf cfg (lcOf b.dag) + 3 ≤ fuel) :
+    ∃ a', pullRound cfg env pA pB fuel a b = (a', (gossipTick b pA.key).node) ∧ (gossipTick b pA.key).node.dag = b.dag ∧
+      DagOK a'.dag ∧ (∀ t ∈ a.dag, t ∈ a'.dag) ∧ (∀ t ∈ a'.dag, t ∈ a.dag ∨ t ∈ b.dag) ∧
+      ((∃ t ∈ a'.dag, t ∉ a.dag) ∨ StuckAt cfg a.dag b.dag (pageOf cfg (Nat.min (lcOf b.dag) (lcOf a.dag)))) :=
+  pull_result H a b pA pB ha hB hf hroot hpb hq hc hxf fuel hfuel
+
+/-- **Two stuck pulls mean equality** (why one direction alone is not enough, and why a pair is): if `a` learned
+    `StuckAt` about `b` and `b` learned `StuckAt` about `a`, the two DAGs hold the same transactions. -/
+theorem stuck_both_ways_same (cfg : Cfg) (hps : 0 < cfg.pageSize) (A B : List Tx) (hA : DagOK A) (hB : DagOK B)
+    (h1 : StuckAt cfg A B (pageOf cfg (Nat.min (lcOf B) (lcOf A)))) (h2 : StuckAt cfg B A (pageOf cfg (Nat.min (lcOf A) (lcOf B)))) :
+    (∀ t ∈ B, t ∈ A) ∧ (∀ t ∈ A, t ∈ B) := pair_stuck_same cfg hps A B hA hB h1 h2
+
+/-- **Progress of a fair round pair.** In any state satisfying the pair invariant (valid DAGs inside a universe `U`
+    in which refs identify transactions and whose root both nodes hold; sound payload stores; gossip queues in sync;
+    the two connected), a fair round pair keeps the invariant, loses nothing, stays inside the union, and ends with
+    EITHER identical transaction sets OR strictly more transactions in the two DAGs together. -/
+theorem round_progress {cfg : Cfg} {env : Env} (H : Hyp cfg env) (U : List Tx)
+    (hU : ∀ t ∈ U, ∀ t' ∈ U, t.ref = t'.ref → t = t')
+    (hxf : ∀ d d' : List Tx, DagOK d → DagOK d' → (∀ t ∈ d, t ∈ U) → (∀ t ∈ d', t ∈ U) → xorOf d' = xorOf d → ∀ t ∈ d', t ∈ d)
+    (pA pB : Peer) (fuel : Nat) (hfuel : pageOf cfg (lcOf U) + 3 ≤ fuel) (a b : Node) (hI : PairInv U a b pA.key pB.key) :
+    PairInv U (roundPair cfg env pA pB fuel (a, b)).1 (roundPair cfg env pA pB fuel (a, b)).2 pA.key pB.key ∧
+    (∀ t ∈ a.dag, t ∈ (roundPair cfg env pA pB fuel (a, b)).1.dag) ∧ (∀ t ∈ b.dag, t ∈ (roundPair cfg env pA pB fuel (a, b)).2.dag) ∧
+    (∀ t ∈ (roundPair cfg env pA pB fuel (a, b)).1.dag, t ∈ a.dag ∨ t ∈ b.dag) ∧
+    (∀ t ∈ (roundPair cfg env pA pB fuel (a, b)).2.dag, t ∈ a.dag ∨ t ∈ b.dag) ∧
+    (SameSet (roundPair cfg env pA pB fuel (a, b)).1.dag (roundPair cfg env pA pB fuel (a, b)).2.dag ∨
+      a.dag.length + b.dag.length < (roundPair cfg env pA pB fuel (a, b)).1.dag.length + (roundPair cfg env pA pB fuel (a, b)).2.dag.length) :=
+  roundPair_step H U hU hxf pA pB fuel hfuel a b hI
+
+/-- **Convergence.** After any number `k` of fair round pairs with `|a| + |b| + k > 2·|U|` — for `U` the union that
+    is at most `|a △ b|` productive pairs — both nodes hold exactly the union `a ∪ b`; and they keep it for every
+    later pair (`k` is arbitrary above the bound). The state `(a, b)` is any state satisfying the pair invariant, in
+    particular any state reached by an arbitrary adversarial prefix (`safety_any_schedule` keeps DAGs valid and inside
+    `U`; expiry clears whatever conversations the prefix left behind). -/
+theorem converges {cfg : Cfg} {env : Env} (H : Hyp cfg env) (U : List Tx)
+    (hU : ∀ t ∈ U, ∀ t' ∈ U, t.ref = t'.ref → t = t')
+    (hxf : ∀ d d' : List Tx, DagOK d → DagOK d' → (∀ t ∈ d, t ∈ U) → (∀ t ∈ d', t ∈ U) → xorOf d' = xorOf d → ∀ t ∈ d', t ∈ d)
+    (pA pB : Peer) (fuel : Nat) (hfuel : pageOf cfg (lcOf U) + 3 ≤ fuel) (a b : Node) (hI : PairInv U a b pA.key pB.key)
+    (k : Nat) (hk : 2 * U.length < a.dag.length + b.dag.length + k) :
+    (∀ t, t ∈ (roundPairs cfg env pA pB fuel k (a, b)).1.dag ↔ (t ∈ a.dag ∨ t ∈ b.dag)) ∧
+    (∀ t, t ∈ (roundPairs cfg env pA pB fuel k (a, b)).2.dag ↔ (t ∈ a.dag ∨ t ∈ b.dag)) ∧
+    DagOK (roundPairs cfg env pA pB fuel k (a, b)).1.dag ∧ DagOK (roundPairs cfg env pA pB fuel k (a, b)).2.dag := by
+  obtain ⟨hIk, sa, sb, ua, ub, _, hcase⟩ := converge_aux H U hU hxf pA pB fuel hfuel k a b hI
+  have hsame : SameSet (roundPairs cfg env pA pB fuel k (a, b)).1.dag (roundPairs cfg env pA pB fuel k (a, b)).2.dag := by
+    rcases hcase with h | h
+    · exact h
+    · exfalso
+      have h1 := length_le_of_sub hIk.oka hIk.ua
+      have h2 := length_le_of_sub hIk.okb hIk.ub
+      omega
+  refine ⟨fun t => ⟨ua t, fun h => ?_⟩, fun t => ⟨ub t, fun h => ?_⟩, hIk.oka, hIk.okb⟩
+  · rcases h with h | h
+    · exact sa t h
+    · exact hsame.1 t (sb t h)
+  · rcases h with h | h
+    · exact hsame.2 t (sa t h)
+    · exact sb t h
+
+/-- **Stability**: once the two hold the same set, every further fair round pair leaves it so -/
+theorem stable_after_convergence {cfg : Cfg} {env : Env} (H : Hyp cfg env) (U : List Tx)
+    (hU : ∀ t ∈ U, ∀ t' ∈ U, t.ref = t'.ref → t = t')
+    (hxf : ∀ d d' : List Tx, DagOK d → DagOK d' → (∀ t ∈ d, t ∈ U) → (∀ t ∈ d', t ∈ U) → xorOf d' = xorOf d → ∀ t ∈ d', t ∈ d)
+    (pA pB : Peer) (fuel : Nat) (hfuel : pageOf cfg (lcOf U) + 3 ≤ fuel) (a b : Node) (hI : PairInv U a b pA.key pB.key)
+    (hs : SameSet a.dag b.dag) (k : Nat) :
+    SameSet (roundPairs cfg env pA pB fuel k (a, b)).1.dag (roundPairs cfg env pA pB fuel k (a, b)).2.dag :=
+  (converge_aux H U hU hxf pA pB fuel hfuel k a b hI).2.2.2.2.2.1 hs
+
+/-! ### non-vacuity: the hypotheses are satisfiable together, and the conclusion is reached on a concrete instance -/
+
+example : DC idealEnv ∧ OrderOK idealEnv := ⟨idealEnv_DC, idealEnv_OrderOK⟩
+example : PairInv exU exA exB 0 1 := exPairInv
+example : ∀ t ∈ exU, ∀ t' ∈ exU, t.ref = t'.ref → t = t' := by decide
+/-- `b` is one transaction ahead: after one fair round pair of the model (constants of the source, ideal oracles) `a` has it -/
+example : ((roundPairs exCfg idealEnv { key := 0 } { key := 1 } 4 1 (exA, exB)).1.dag.map (·.ref),
+           (roundPairs exCfg idealEnv { key := 0 } { key := 1 } 4 1 (exA, exB)).2.dag.map (·.ref)) = ([2, 1], [2, 1]) := by decide
+/-- the theorem applied to the instance -/
+example : ∀ t, t ∈ (roundPairs exCfg idealEnv { key := 0 } { key := 1 } 4 2 (exA, exB)).1.dag ↔ (t ∈ exA.dag ∨ t ∈ exB.dag) :=
+  (converges (fact_hyp 524288 30 idealEnv idealEnv_DC idealEnv_OrderOK) exU (by decide) exXF { key := 0 } { key := 1 } 4
+    (by decide) exA exB exPairInv 2 (by decide)).1
+/-- safety: a forged TransactionList without conversation, and an invalid transaction, change nothing -/
+example : (handle exCfg idealEnv exA { key := 1 } (.txList (7, 7) 1 1 [⟨some exX, some ⟨"p-x", 3, 20⟩⟩])).node.dag = exA.dag := by decide
 
 end Nuts.C07.Props
